@@ -620,11 +620,20 @@ def r6_naming_order(ctx, rep):
     fn = py.func("Project.correlate")
     first_sort = min([c.lineno for c in py.walk_calls(fn) if call_name(c).endswith("toposort_flatten")
                       or call_name(c) == "sorted"] or [10 ** 9])
+    def iter_text(it: ast.AST, depth: int = 0) -> str:
+        """the iterable with the locals it is made of written out (`chain(units, declared)` -> the two definitions)"""
+        t = ast.unparse(it)
+        if depth < 3:
+            for nm in {x.id for x in ast.walk(it) if isinstance(x, ast.Name)}:
+                for _st, v in astq.assignments(fn, nm):
+                    if v is not None:
+                        t += " | " + iter_text(v, depth + 1)
+        return t
     pre = None
     for st in fn.body:
         if isinstance(st, ast.For) and st.lineno < first_sort and any(
                 isinstance(a, ast.Attribute) and a.attr == "ident" for a in ast.walk(st)):
-            lists = re.findall(r"self\.(\w+)", ast.unparse(st.iter))
+            lists = re.findall(r"self\.(\w+)", iter_text(st.iter))
             if {"modules", "submodules", "procedures", "programs"} <= set(lists):
                 pre = st
     if not readers:
@@ -640,8 +649,9 @@ def r6_naming_order(ctx, rep):
     # nested entities (types, bindings, variables ...): named in source order as well
     nested = [st for st in ast.walk(fn) if isinstance(st, ast.For) and st.lineno < first_sort
               and any(isinstance(a, ast.Attribute) and a.attr == "ident" for a in ast.walk(st))
-              and any("markdownable_items" in ast.unparse(x.iter) or "_to_be_markdowned" in ast.unparse(x.iter)
-                      for x in ast.walk(st) if isinstance(x, ast.For))]
+              and (any("markdownable_items" in ast.unparse(x.iter) or "_to_be_markdowned" in ast.unparse(x.iter)
+                       for x in ast.walk(st) if isinstance(x, ast.For))
+                   or "markdownable_items" in iter_text(st.iter) or "_to_be_markdowned" in iter_text(st.iter))]
     rep.ob("every declared entity is named in source order before any sorting", bool(nested),
            "Project.correlate walks the files' registered entities in order and requests their names first" if nested else
            f"only the top-level units are named up front: a derived type / binding / variable gets its ~N suffix when "
@@ -673,6 +683,13 @@ def r7_canonical_paths(ctx, rep):
     from . import c19
     c19.r3_resolved_paths(ctx, rep)
 
+def r8_identity_key(ctx, rep):
+    """equality of graph nodes is not coarser than their displayed text (generic rule `lossy_identity_key`): otherwise the
+    spelling that survives in a set depends on insertion order, i.e. on PYTHONHASHSEED"""
+    from . import common
+    common.lossy_identity_key(ctx, rep)
+
+
 RULES = [
     RuleSpec("C12.R6", r6_naming_order, "page-name numbering does not depend on set iteration order", floor=1),
     RuleSpec("C12.R5", r5_serial_parallel_agree, "serial and parallel graph output agree", floor=3),
@@ -681,4 +698,5 @@ RULES = [
     RuleSpec("C12.R2", r2_stale_output, "stale output cannot survive", floor=2),
     RuleSpec("C12.R3", r3_clock, "clock and identity stay out of the output", floor=4),
     RuleSpec("C12.R7", r7_canonical_paths, "configured paths are canonical (shared with C19.R3)", floor=1),
+    RuleSpec("C12.R8", r8_identity_key, "node identity keeps differently spelled names apart", floor=1),
 ]
